@@ -1,0 +1,5 @@
+//go:build !verif
+
+package yang
+
+func verifHook(point string, args ...interface{}) {}
